@@ -286,6 +286,7 @@ func (u *PacketUnderlay) onOpenSessionRequest(seg *segment, remoteAddr net.Addr)
 	if !u.deliverSegmentToSession(session, seg) {
 		return fmt.Errorf("failed to deliver open session request for session %d", sessionID)
 	}
+	session.waitFirstInput(u.done)
 	select {
 	case u.readySessions <- session:
 	case <-u.done:
